@@ -3,6 +3,7 @@ package c02
 
 import (
 	"fmt"
+	"lunar/engine/streams"
 	"os"
 	"sort"
 	"strings"
@@ -292,10 +293,39 @@ type infraErr struct{ msg string }
 
 func (e infraErr) Error() string { return "VERIF-INFRA: " + e.msg }
 
+// clock and number of collectors of the case that ran last (cases run one after the other)
+var (
+	lastClk    *vclock.Clock
+	lastNQ     int
+	lastStream *streams.Stream
+)
+
 func runHistory(h hist) (nontrivial bool, classes map[string]int, err error) {
+	nt, cl, err := runHistoryInner(h)
+	if err != nil && cl["collector-not-armed"] > 0 {
+		if _, infra := err.(infraErr); !infra {
+			// The collector passes of this case were not awaited. Confirm without any hand-shake: long after
+			// every expiry time (collectors that armed late fire on the way) a new transaction must be admitted.
+			for i := 0; i < 3; i++ {
+				if _, e := lastClk.AdvanceSettle(time.Hour, "runGC"); e != nil {
+					return nt, cl, infraErr{e.Error()}
+				}
+			}
+			res := engine.RunRequest(lastStream, txn(900000, false, lastClk.Now()))
+			if res.Err == nil && res.Early == nil {
+				return nt, cl, infraErr{"collectors armed later than the hand-shake bound; case not judged: " + err.Error()}
+			}
+			return nt, cl, fmt.Errorf("%v; no expiry collector armed a timer for this quota, and three hours after every expiry time a new transaction is still refused: the slots are never given back", err)
+		}
+	}
+	return nt, cl, err
+}
+
+func runHistoryInner(h hist) (nontrivial bool, classes map[string]int, err error) {
 	classes = map[string]int{}
 	start := time.Unix(1_700_000_000, 0)
 	clk := vclock.New(start)
+	lastClk, lastNQ = clk, 1
 	engine.SetClock(clk)
 	dir, e := engine.NewDir(scratch)
 	if e != nil {
@@ -321,8 +351,11 @@ func runHistory(h hist) (nontrivial bool, classes map[string]int, err error) {
 		gcEvery = append(gcEvery, time.Duration(h.Config.PGC)*time.Second)
 	}
 	// every concurrent strategy starts one collector goroutine; wait until each has armed its first timer
+	// (a quota whose collector never arms a timer is not an infrastructure problem: the history goes on and
+	// the first slot that is not given back at its expiry is reported as the violation it is)
+	lastNQ, lastStream = nq, s
 	if e := clk.WaitRegistrations("runGC", nq); e != nil {
-		return false, classes, infraErr{e.Error()}
+		classes["collector-not-armed"]++
 	}
 	// collector timers: identify which quota each belongs to by its period (child timer registered per strategy)
 	nextGC := make([]time.Time, nq)
